@@ -10,7 +10,7 @@ for d in seeded/*/; do
   prop=${name%%-*}
   if [ -n "$(git -C /repo status --short)" ]; then echo "/repo not clean"; exit 3; fi
   if ! git -C /repo apply /verif/$d/patch.diff 2>/dev/null; then echo "$name $prop PATCH-DOES-NOT-APPLY" >> $OUT.tmp; continue; fi
-  ./check $prop quick > /tmp/regress_out.txt 2>&1; rc=$?
+  VERIF_MAX_REPORT=1 VERIF_MINIMISE_SECS=3 ./check $prop quick > /tmp/regress_out.txt 2>&1; rc=$?
   sig=$(grep -m1 "signature:" /tmp/regress_out.txt | sed 's/.*signature: //')
   git -C /repo checkout -- .
   echo "$name $prop exit=$rc $sig" >> $OUT.tmp
